@@ -18,7 +18,10 @@
 // mode -2: the irreflexive eq(a,b) = a < b (the re-matching loops can run off the end, which
 // exercises the model's panic results).
 // mode -3: the reflexive, transitive, NOT symmetric eq(a,b) = a <= b.
-// Negative modes are outside the property's precondition: correspondence only.
+// mode -4: the symmetric, transitive, NOT reflexive eq(a,b) = (a == b && a != 3): a partial
+// equivalence in which 3 is related to nothing, not even itself -- what == is on floats with
+// NaN.  The theorems cover it, so the property is evaluated on these outputs too.
+// Modes -1..-3 are outside the property's precondition: correspondence only.
 //
 // edits: "." for an empty script, else ';'-joined  <op>:<xoff>:<X>:<yoff>:<Y>  where op is the
 // Op byte (- = + !), X and Y are the element lists ("." when empty) and xoff/yoff say where the
@@ -50,6 +53,8 @@ func eqFor(mode int) func(a, b int) bool {
 		return func(a, b int) bool { return a < b }
 	case mode == -3:
 		return func(a, b int) bool { return a <= b }
+	case mode == -4:
+		return func(a, b int) bool { return a == b && a != 3 }
 	}
 	return func(a, b int) bool { return a == b }
 }
@@ -79,7 +84,7 @@ func window(s, extra []int, guard int) (arr, win []int) {
 }
 
 func exec(in string) string {
-	f := strings.Fields(in)
+	f := strings.Fields(strings.ReplaceAll(in, "_", " ")) // "_" for blanks: inputs reported by the extra steps
 	if (len(f) != 4 && len(f) != 6) || f[0] != "E" {
 		return "?"
 	}
@@ -164,7 +169,7 @@ func ambiguous(l, r []int, mode int) bool {
 }
 
 func main() {
-	tr.Main("C11: every pair of sequences over 2 symbols to length 6 (quick) / 8 (thorough), over 3 symbols to length 4 / 5, over 2 keys x 2 payloads under the two key equivalences (v%2, v/2) to length 3 / 4; random pairs derived from a common base by dropping, inserting and overwriting runs (long common runs), over 2-4 symbols (heavy repetition), lengths to 60 (a few to 200), under ==, under key equivalences mod 2..4 and div 2..3, and (correspondence only, outside the precondition) under a non-transitive, an irreflexive and a non-symmetric relation, where the real code can panic and the model must predict it. Every input is a window into a larger array with guards in front and a spare capacity of 0..3 elements behind (sentinels, or elements of the alphabet). Non-trivial = a side repeats an element (ambiguous alignment); distinct = distinct input lines.",
+	tr.Main("C11: every pair of sequences over 2 symbols to length 6 (quick) / 8 (thorough), over 3 symbols to length 4 / 5, over 2 keys x 2 payloads under the two key equivalences (v%2, v/2) to length 3 / 4; random pairs derived from a common base by dropping, inserting and overwriting runs (long common runs), over 2-4 symbols (heavy repetition), lengths to 60 (a few to 200), under ==, under key equivalences mod 2..4 and div 2..3, and (correspondence only, outside the precondition) under a non-transitive, an irreflexive and a non-symmetric relation, where the real code can panic and the model must predict it; and under a partial equivalence (3 related to nothing, as NaN under ==), which the theorems cover. Every input is a window into a larger array with guards in front and a spare capacity of 0..3 elements behind (sentinels, or elements of the alphabet). Non-trivial = a side repeats an element (ambiguous alignment); distinct = distinct input lines.",
 		exec, func(g *tr.G) {
 			n := 0
 			// the spare capacity behind the two inputs: none at all, sentinels, or elements that
@@ -263,6 +268,13 @@ func main() {
 					emit(102, l, r, 4, "exh-keyed-div")
 				}
 			}
+			// a partial equivalence (3 behaves like NaN), small exhaustive
+			sp := allSeqs([]int{0, 1, 3}, g.Scale(4, 5))
+			for _, l := range sp {
+				for _, r := range sp {
+					emit(-4, l, r, 4, "exh-partial-eq")
+				}
+			}
 			// relations that are not equivalences, small exhaustive (correspondence only)
 			sn := allSeqs([]int{0, 1, 2}, g.Scale(3, 4))
 			for _, l := range sn {
@@ -284,9 +296,11 @@ func main() {
 						for k := 1 + g.R.Intn(4); k > 0; k-- {
 							out = append(out, g.R.Intn(nsym))
 						}
-					case g.R.Chance(1, 12): // overwrite one
-						out = append(out, g.R.Intn(nsym))
-						i++
+					case g.R.Chance(1, 12): // overwrite a run (equal-length change in the middle)
+						for k := 1 + g.R.Intn(3); k > 0 && i < len(base); k-- {
+							out = append(out, g.R.Intn(nsym))
+							i++
+						}
 					default: // keep a run
 						for k := 1 + g.R.Intn(8); k > 0 && i < len(base); k-- {
 							out = append(out, base[i])
@@ -325,6 +339,10 @@ func main() {
 				k := g.R.Range(2, 3)
 				l, r := randPair(g.R.Range(5, 50), k*3) // keys 0..2, payloads 0..k-1
 				emit(100+k, l, r, k*3, "random-keyed-div")
+			}
+			for i := 0; i < g.Scale(1000, 20000); i++ {
+				l, r := randPair(g.R.Range(5, 50), 4)
+				emit(-4, l, r, 4, "random-partial-eq")
 			}
 			for i := 0; i < g.Scale(500, 10000); i++ {
 				nsym := g.R.Range(3, 6)
